@@ -39,6 +39,8 @@ def lib():
         for m in list(sys.modules):
             if m == "ecdsa" or m.startswith("ecdsa."):
                 raise HarnessError("ecdsa imported before core.lib()")
+        from . import sched
+        sched.patch_threading(src)
         import ecdsa
         import ecdsa.ecdh
         import ecdsa._rwlock
